@@ -111,14 +111,15 @@ def BKind.rank : BKind → Nat
 return types (dropped by `LambdaExpression.GetValue`) are left unchecked -/
 def knownBoundary : Boundary → BKind
   | .propStore | .dynPropStore | .fnReturn | .idxStore
-  | .fnParam | .methParam | .staticParam | .ctorParam | .methReturn | .closureParam | .promotedParam => .exact
+  | .fnParam | .methParam | .staticParam | .ctorParam | .methReturn | .closureParam | .promotedParam
+  | .variadicParam => .exact
   | .staticStore | .closureReturn => .unchecked
 
 /-- what was known before the second round of repairs -/
 def knownBoundaryBefore : Boundary → BKind
   | .propStore | .dynPropStore | .fnReturn => .exact
   | .fnParam | .methParam | .staticParam | .ctorParam | .methReturn | .closureParam | .promotedParam => .nullAlso
-  | .idxStore | .staticStore | .closureReturn => .unchecked
+  | .idxStore | .staticStore | .closureReturn | .variadicParam => .unchecked
 
 def BoundariesOK (B : Boundary → BKind) : Bool :=
   Boundary.all.all (fun b => BKind.rank (B b) ≤ BKind.rank (knownBoundary b))
